@@ -2018,10 +2018,10 @@ def run_alphabet(rnd, thorough, seed):
                         mine = cases if stride == 1 else cases[(mi + which + salt) % stride::stride]
                         heavy = False
                         for ci, (cls, p) in enumerate(mine):
-                            if heavy and not thorough and ci % 3:
+                            last = ci == len(mine) - 1
+                            if heavy and not thorough and ci % 3 and not last:
                                 cov["cases_thinned_for_walking_methods"] += 1
                                 continue
-                            last = ci == len(mine) - 1
                             del log[:]
                             args = build_args(params, positions, which, p)
                             blob, verdict = "", "ok"
